@@ -7,7 +7,7 @@ from vf import gen
 
 PID = "C18"
 ANCHORS = ["pyoma2.functions.gen:MAC", "pyoma2.functions.gen:MPC", "pyoma2.functions.gen:MPD", "pyoma2.functions.gen:MCF", "pyoma2.functions.gen:MSF"]
-REQUIRED_MONITORS = ["set=columns@MCF", "arguments-unchanged+auto-MAC", "mixed-dtype MAC", "range@MAC", "range@MPC", "range@MPD", "range@MCF", "shape+symmetry@MAC", "scale-invariance", "collinear-exact",
+REQUIRED_MONITORS = ["views-of-one-array@MAC", "set=columns@MCF", "arguments-unchanged+auto-MAC", "mixed-dtype MAC", "range@MAC", "range@MPC", "range@MPD", "range@MCF", "shape+symmetry@MAC", "scale-invariance", "collinear-exact",
                      "MSF(v,cv)=c", "contracts-active-during-SSI-run"]
 CLASSES = ["generic", "generic_unit_normalised", "generic_zero_or_real_components", "nearly_collinear_1e-8", "nearly_collinear_1e-3", "collinear", "collinear_unit_normalised", "collinear_zero_components",
            "collinear_halves", "constant", "isotropic_reference", "sets"]
@@ -304,7 +304,7 @@ def run_sets(ctx, rng):
     ctx.ev("arguments-unchanged+auto-MAC")
     ctx.check(np.array_equal(X, Xk) and np.array_equal(A, Ak), "MAC:arguments_modified", "MAC changed the arrays it was given")
     if nx >= 2:
-        Xs = X * (10 ** rng.uniform(-4, 4, nx))[None, :]  # shapes of any length
+        Xs = X * (10 ** rng.uniform(-7, 7, nx))[None, :]  # shapes of any length (amplitudes up to 14 decades apart inside one set)
         Ms = np.asarray(call(ctx, "MAC", Xs, Xs))  # one and the same object on both sides
         ctx.check(Ms.shape == (nx, nx) and np.allclose(np.diag(Ms), 1.0, atol=1e-9) and np.allclose(Ms, Ms.T, atol=1e-9), "MAC:auto_mac_of_a_set",
                   lambda: f"MAC(S, S) of {nx} shapes (same array object): diagonal {np.diag(Ms)}")
@@ -320,6 +320,17 @@ def run_sets(ctx, rng):
             for j in range(na):
                 e = gen.mac(X[:, i], A[:, j])
                 ctx.check(abs(np.asarray(M)[i, j] - e) <= 1e-10, "MAC:entry_value", lambda: f"MAC[{i},{j}]={np.asarray(M)[i,j]!r} expected {e!r}")
+    if nx >= 2:
+        # two different views of ONE parent array (columns of a mode-shape matrix) are two different sets of shapes
+        ctx.ev("views-of-one-array@MAC")
+        k2 = nx // 2
+        mv = call(ctx, "MAC", X[:, 0], X[:, 1])
+        ctx.check(abs(mv - gen.mac(X[:, 0].copy(), X[:, 1].copy())) <= 1e-10, "MAC:views_of_one_array", lambda: f"MAC(P[:, 0], P[:, 1]) = {mv!r}, with copies {gen.mac(X[:, 0], X[:, 1])!r}")
+        if k2 >= 1:
+            Mv = np.asarray(call(ctx, "MAC", X[:, :k2], X[:, k2:2 * k2]))
+            Ev = np.array([[gen.mac(X[:, i], X[:, k2 + j]) for j in range(k2)] for i in range(k2)])
+            ctx.check(Mv.shape == Ev.shape and np.allclose(Mv, Ev, atol=1e-10) if k2 > 1 else abs(complex(Mv) - Ev[0, 0]) <= 1e-10, "MAC:views_of_one_array",
+                      lambda: f"MAC(P[:, :{k2}], P[:, {k2}:{2*k2}]) differs from the MAC of copies of the two blocks")
     mcf = call(ctx, "MCF", X)
     ctx.check(np.shape(mcf) == (nx,), "MCF:shape", lambda: f"MCF of {nx} shapes has shape {np.shape(mcf)}")
     if np.shape(mcf) == (nx,):
